@@ -143,7 +143,7 @@ func (w *World) login(b *browser) error {
 	}
 	signIn := r.Header.Get("Location")
 	csrfProxy, _ := r.CookieAfter(w.P.CSRFName, "")
-	if r.Status != 302 || !strings.HasPrefix(signIn, "http://"+authHost+"/") {
+	if !world.IsRedirect(r.Status) || !strings.HasPrefix(signIn, "http://"+authHost+"/") {
 		return fmt.Errorf("proxy start: %d %q", r.Status, signIn)
 	}
 	// 2. the authenticator shows its sign-in page (nobody is signed in)
@@ -152,7 +152,7 @@ func (w *World) login(b *browser) error {
 	}
 	// 3. the page's button leads to /start
 	r, _, err = w.to(b, "GET", "http://"+authHost+w.A.Path("start")+"?redirect_uri="+url.QueryEscape(signIn), nil, nil)
-	if err != nil || r.Status != 302 {
+	if err != nil || !world.IsRedirect(r.Status) {
 		return fmt.Errorf("start: %v %d %.100q", err, r.Status, r.Body)
 	}
 	csrfAuth, _ := r.CookieAfter(w.A.CSRFName, "")
@@ -163,17 +163,17 @@ func (w *World) login(b *browser) error {
 	// 4. the user consents at the IdP, which returns the browser to the authenticator's callback
 	cb := idpURL.Query().Get("redirect_uri") + "?code=" + url.QueryEscape(code) + "&state=" + url.QueryEscape(idpURL.Query().Get("state"))
 	r, _, err = w.to(b, "GET", cb, nil, []*http.Cookie{{Name: w.A.CSRFName, Value: csrfAuth}})
-	if err != nil || r.Status != 302 {
+	if err != nil || !world.IsRedirect(r.Status) {
 		return fmt.Errorf("auth callback: %v %d %.100q", err, r.Status, r.Body)
 	}
 	// 5. back at sign_in, now with the authenticator's cookie: a code for the proxy
 	r, _, err = w.to(b, "GET", r.Header.Get("Location"), nil, nil)
-	if err != nil || r.Status != 302 {
+	if err != nil || !world.IsRedirect(r.Status) {
 		return fmt.Errorf("sign_in with cookie: %v %d %.100q", err, r.Status, r.Body)
 	}
 	// 6. the proxy's callback redeems the code
 	r, _, err = w.to(b, "GET", r.Header.Get("Location"), nil, []*http.Cookie{{Name: w.P.CSRFName, Value: csrfProxy}})
-	if err != nil || r.Status != 302 || b.pc == "" {
+	if err != nil || !world.IsRedirect(r.Status) || b.pc == "" {
 		return fmt.Errorf("proxy callback: %v %d %.100q", err, r.Status, r.Body)
 	}
 	// 7. and the page is served
@@ -308,7 +308,7 @@ func (w *World) Replay(base int, evs []Ev, r *rand.Rand) ([]Line, error) {
 			// the emitted URL, fed verbatim to the real authenticator (GET, no cookie), must pass its gates and go back to the same host
 			if u, err := url.Parse(emitted); err == nil && u.Host == authHost {
 				probe := world.Do(w.A.Handler, world.NewReq("GET", authHost, u.RequestURI(), nil, nil, ""))
-				ln.Accepted = probe.Status == 302
+				ln.Accepted = world.IsRedirect(probe.Status)
 				back := probe.Header.Get("Location")
 				_, h := abs.HostOf(back)
 				ln.SameHost = ln.Accepted && h == appHost
